@@ -69,6 +69,7 @@ type vfServer struct {
 
 	Statements []string         // every mutating statement received (whitespace-normalised, args inlined), in order
 	FailOn     map[string]error // substring of the statement text -> error returned instead of executing it
+	EmptyOn    map[string]bool  // substring of a reading statement -> answered with an empty result set (zero rows)
 }
 
 func vfMaster(host, gtid string) *vfServer {
@@ -237,6 +238,15 @@ func (s *vfServer) run(ctx context.Context, query string, args []driver.NamedVal
 	}
 	if mutating {
 		return vfNone(), s.mutate(q)
+	}
+	for sub, on := range s.EmptyOn {
+		if on && strings.Contains(q, sub) {
+			r, err := s.read(q)
+			if err != nil {
+				return nil, err
+			}
+			return vfNone(r.cols...), nil
+		}
 	}
 	return s.read(q)
 }
